@@ -26,7 +26,7 @@ RULE = (
 ASSUMPTIONS = [
     "inputs are at most 128 characters for the fuzzer, ~60 for random text; termination means 'returns within 10 s'",
     "exceptions raised below a built-in's own body (ill-typed list contents, bad regex) are outside the property",
-    "libFuzzer campaigns are only approximately reproducible from a seed; the saved input is the reproducible unit and is re-confirmed by plain replay before it is reported",
+    "each libFuzzer shard is bounded by -runs and by a wall-clock cap (-max_total_time; hitting it only ends the search, it is never a verdict); a shard stops at the first non-terminating input. libFuzzer campaigns are only approximately reproducible from a seed; the saved input is the reproducible unit and is re-confirmed by plain replay before it is reported",
 ]
 BASE_US = 1_650_000_000_000_000
 BUCKET = "aw-watcher-window_host1"
@@ -194,11 +194,12 @@ def strategy(draw, tier="quick"):
             ["undefined_var", "unknown_function", "too_many", "too_few", "wrong_type", "unknown_bucket", "unterminated_string", "empty_rhs", "assign_nonvar", "no_return"]
         )
     )
-    return {"kind": "typed", "which": which, "f": draw(st.sampled_from(TYPED_FUNCS)), "n": draw(st.integers(0, 3)), "ws": draw(st.sampled_from(["", " ", "\n"])), "q": draw(st.sampled_from(["'", '"']))}
+    return {"kind": "typed", "which": which, "f": draw(st.sampled_from(TYPED_FUNCS)), "n": draw(st.integers(0, 11)), "ws": draw(st.sampled_from(["", " ", "\n"])), "q": draw(st.sampled_from(["'", '"']))}
 
 
 # built-in -> (arity, index and literal of a type-checked positional parameter)
 ARITY = {
+    "find_bucket": 2,
     "query_bucket": 1,
     "query_bucket_eventcount": 1,
     "filter_keyvals": 3,
@@ -222,6 +223,7 @@ ARITY = {
     "tag": 2,
 }
 GOOD_ARGS = {
+    "find_bucket": ['"aw-watcher"', '"host1"'],
     "query_bucket": ['"%s"' % BUCKET],
     "query_bucket_eventcount": ['"%s"' % BUCKET],
     "filter_keyvals": ["[]", '"app"', "[]"],
@@ -261,15 +263,15 @@ def typed_text(c):
     if w == "too_few":
         if not good:
             return f"RETURN{ws}={ws}never_defined", "QueryInterpretException"
-        return f"RETURN{ws}={ws}{f}({sep.join(good[: c['n'] % len(good)])})", "QueryInterpretException"
+        k = 0 if f == "find_bucket" else c["n"] % len(good)  # find_bucket's second parameter is optional
+        return f"RETURN{ws}={ws}{f}({sep.join(good[:k])})", "QueryInterpretException"
     if w == "wrong_type":
         if not good:
             return f'RETURN{ws}={ws}query_bucket({sep.join(["1"])})', "QueryFunctionException"
         i = c["n"] % len(good)
         bad = list(good)
-        bad[i] = "{}" if good[i] != "{}" else "1"
-        if good[i] == "1":
-            bad[i] = '"x"'
+        wrong = {"[": ["{}", "1", '"x"'], '"': ["7", "[1]", '{"a": 1}'], "1": ['"x"', "[]", "{}"]}[good[i][0]]
+        bad[i] = wrong[(c["n"] // len(good)) % len(wrong)]
         return f"RETURN{ws}={ws}{f}({sep.join(bad)})", "QueryFunctionException"
     if w == "unknown_bucket":
         return f"RETURN{ws}={ws}query_bucket({q}no-such-bucket-{c['n']}{q})", "QueryFunctionException"
@@ -278,7 +280,7 @@ def typed_text(c):
     if w == "empty_rhs":
         return f"a{ws}=", "QueryParseException"
     if w == "assign_nonvar":
-        return [f"1{ws}={ws}2", f"{q}a{q}{ws}={ws}2", f"nop(){ws}={ws}2", f"[]{ws}={ws}1"][c["n"]], "QueryParseException"
+        return [f"1{ws}={ws}2", f"{q}a{q}{ws}={ws}2", f"nop(){ws}={ws}2", f"[]{ws}={ws}1"][c["n"] % 4], "QueryParseException"
     if w == "no_return":
         return f"a{ws}={ws}1", "QueryParseException"
     raise ValueError(w)
@@ -352,11 +354,11 @@ def run_case(case):
 def extra_phases(tier, seed, jobs):
     tasks = []
     if tier == "quick":
-        tasks.append({"runs": 60000, "seed": seed * 100 + 1, "corpus": False})
-        tasks.append({"runs": 60000, "seed": seed * 100 + 2, "corpus": True})
+        tasks.append({"runs": 60000, "seed": seed * 100 + 1, "corpus": False, "budget_s": 240})
+        tasks.append({"runs": 60000, "seed": seed * 100 + 2, "corpus": True, "budget_s": 240})
     else:
         for w in range(jobs):
-            tasks.append({"runs": 1500000, "seed": seed * 100 + w + 1, "corpus": w % 2 == 1})
+            tasks.append({"runs": 1500000, "seed": seed * 100 + w + 1, "corpus": w % 2 == 1, "budget_s": 3600})
     return [("atheris", "phase_atheris", tasks)]
 
 
@@ -369,7 +371,7 @@ def phase_atheris(task):
         return st_
     out = env.fresh_dir()
     corpus = env.fresh_dir()
-    args = [sys.executable, "-B", os.path.join(env.VERIF, "vlib", "fuzz_c17.py"), out, corpus, f"-runs={task['runs']}", f"-seed={task['seed']}", "-max_len=128", "-len_control=0", f"-dict={os.path.join(env.VERIF, 'corpus', 'c17.dict')}", "-timeout=30", "-rss_limit_mb=4096", "-verbosity=0", "-print_final_stats=0"]
+    args = [sys.executable, "-B", os.path.join(env.VERIF, "vlib", "fuzz_c17.py"), out, corpus, f"-runs={task['runs']}", f"-seed={task['seed']}", "-max_len=128", "-len_control=0", f"-dict={os.path.join(env.VERIF, 'corpus', 'c17.dict')}", "-timeout=30", f"-max_total_time={task.get('budget_s', 300)}", "-rss_limit_mb=4096", "-verbosity=0", "-print_final_stats=0"]
     if task["corpus"]:
         src = os.path.join(env.VERIF, "corpus", "c17")
         for name in sorted(os.listdir(src)):
